@@ -164,7 +164,7 @@ func parseGuard(g string) (guardSpec, error) {
 func guardClauseResults(eng *vc.Engine, fname string) []StructResult {
 	spec := eng.Spec.Funcs[fname]
 	fn := eng.Func(fname)
-	if spec == nil || fn == nil || (len(spec.Guards) == 0 && len(spec.Orders) == 0 && len(spec.Reads) == 0 && len(spec.ControlOnly) == 0 && len(spec.FeedsOnly) == 0 && !spec.ReturnsFresh && len(spec.NoStoreThrough) == 0) {
+	if spec == nil || fn == nil || (len(spec.Guards) == 0 && len(spec.Orders) == 0 && len(spec.Reads) == 0 && len(spec.ControlOnly) == 0 && len(spec.DebugOnly) == 0 && len(spec.FeedsOnly) == 0 && !spec.ReturnsFresh && len(spec.NoStoreThrough) == 0) {
 		return nil
 	}
 	var out []StructResult
@@ -217,6 +217,20 @@ func guardClauseResults(eng *vc.Engine, fname string) []StructResult {
 			why, isBad := bad[f]
 			out = append(out, StructResult{Name: fmt.Sprintf("%s#feeds:%s.%s", fname, fc.Type, f), Desc: fmt.Sprintf("the value of %s.%s reaches %s unchanged", fc.Type, f, strings.Join(fc.Into, "/")), OK: !isBad, Detail: why})
 		}
+	}
+	for _, dc := range spec.DebugOnly {
+		tn, field, ok := strings.Cut(dc.Field, ".")
+		name := fmt.Sprintf("%s#debug-only:%s", fname, dc.Field)
+		if !ok {
+			out = append(out, StructResult{Name: name, Desc: "debug_only needs Type.field", OK: false, Status: "unbound"})
+			continue
+		}
+		why, nLoads, nFuncs := debugOnly(fn, tn, field, dc.Writes)
+		if nLoads == 0 {
+			out = append(out, StructResult{Name: name + ":site", Desc: "the field is read somewhere reachable", OK: false, Status: "unbound", Detail: "no load of the field found in the function or in what it reaches in its package (code shape changed)"})
+			continue
+		}
+		out = append(out, StructResult{Name: name, Desc: fmt.Sprintf("%s.%s only guards branches that write nothing but %s (%d reads in %d functions reachable from %s)", tn, field, strings.Join(dc.Writes, "/"), nLoads, nFuncs, fname), OK: why == "", Detail: why})
 	}
 	for _, tf := range spec.ControlOnly {
 		tn, field, ok := strings.Cut(tf, ".")
@@ -990,4 +1004,269 @@ func storesThrough(eng *vc.Engine, fn *ssa.Function, tname string, except map[st
 		}
 	}
 	return bad, len(seen)
+}
+
+
+// debugOnly: over fn and every function of its package statically reachable
+// from it (closures included), plus callees of any package that receive the
+// flag as a bool argument: every load of tname.field (and every such
+// parameter) is used only as a branch condition (possibly negated, or passed
+// on as an argument); and the blocks that run only because of such a branch
+// (those dominated by a successor that has the branch as its only
+// predecessor) contain no store except to fields / variables named in
+// `writes`, no call except formatting helpers and functions that receive the
+// flag, no map update, send, go, defer, return or panic; and no phi after the
+// branch merges a value coming out of such a block into a variable that is not
+// named in `writes`. Returns "" or the first reason it does not hold.
+func debugOnly(root *ssa.Function, tname, field string, writes []string) (string, int, int) {
+	allowed := map[string]bool{}
+	for _, w := range writes {
+		allowed[w] = true
+	}
+	isLoadOf := func(ins ssa.Instruction) (ssa.Value, bool) {
+		switch x := ins.(type) {
+		case *ssa.UnOp:
+			if x.Op != token.MUL {
+				return nil, false
+			}
+			fa, ok := x.X.(*ssa.FieldAddr)
+			if !ok {
+				return nil, false
+			}
+			st := fa.X.Type().Underlying().(*types.Pointer).Elem()
+			n, isN := st.(*types.Named)
+			if !isN || n.Obj().Name() != tname {
+				return nil, false
+			}
+			if st.Underlying().(*types.Struct).Field(fa.Field).Name() != field {
+				return nil, false
+			}
+			return x, true
+		case *ssa.Field:
+			n, isN := x.X.Type().(*types.Named)
+			if !isN || n.Obj().Name() != tname {
+				return nil, false
+			}
+			if n.Underlying().(*types.Struct).Field(x.Field).Name() != field {
+				return nil, false
+			}
+			return x, true
+		}
+		return nil, false
+	}
+	pos := func(f *ssa.Function, p token.Pos) string { return shortPath(f.Prog.Fset.Position(p).String()) }
+	formatting := func(c *ssa.CallCommon) bool {
+		if b, ok := c.Value.(*ssa.Builtin); ok {
+			switch b.Name() {
+			case "len", "cap", "append", "copy", "min", "max":
+				return true
+			}
+			return false
+		}
+		if c.IsInvoke() {
+			return c.Method.Name() == "String" || c.Method.Name() == "Error"
+		}
+		sc := c.StaticCallee()
+		if sc == nil || sc.Pkg == nil {
+			return sc != nil && (sc.Name() == "String" || sc.Name() == "Error")
+		}
+		switch sc.Pkg.Pkg.Path() {
+		case "fmt":
+			if strings.HasPrefix(sc.Name(), "Fprint") && len(c.Args) > 0 {
+				// printing into a local buffer (strings.Builder, bytes.Buffer)
+				if mi, ok := c.Args[0].(*ssa.MakeInterface); ok {
+					if _, isLocal := mi.X.(*ssa.Alloc); isLocal {
+						return true
+					}
+				}
+				return false
+			}
+			return strings.HasPrefix(sc.Name(), "Sprint")
+		case "strings", "strconv", "unicode/utf8", "math":
+			return true
+		}
+		return sc.Name() == "String"
+	}
+	nameOfAddr := func(a ssa.Value) string {
+		for {
+			switch x := a.(type) {
+			case *ssa.FieldAddr:
+				st := x.X.Type().Underlying().(*types.Pointer).Elem().Underlying().(*types.Struct)
+				return st.Field(x.Field).Name()
+			case *ssa.IndexAddr:
+				a = x.X
+			case *ssa.Alloc:
+				return x.Comment
+			case *ssa.FreeVar:
+				return x.Name()
+			case *ssa.UnOp:
+				a = x.X
+			default:
+				return ""
+			}
+		}
+	}
+	type taint struct {
+		fn *ssa.Function
+		v  ssa.Value
+	}
+	var work []taint
+	seenV := map[ssa.Value]bool{}
+	pushV := func(f *ssa.Function, v ssa.Value) {
+		if !seenV[v] {
+			seenV[v] = true
+			work = append(work, taint{f, v})
+		}
+	}
+	// collect loads in root and in what it reaches in its package
+	seenF := map[*ssa.Function]bool{root: true}
+	fq := []*ssa.Function{root}
+	nLoads := 0
+	funcsWith := map[*ssa.Function]bool{}
+	for len(fq) > 0 {
+		f := fq[len(fq)-1]
+		fq = fq[:len(fq)-1]
+		for _, b := range f.Blocks {
+			for _, ins := range b.Instrs {
+				if v, ok := isLoadOf(ins); ok {
+					nLoads++
+					funcsWith[f] = true
+					pushV(f, v)
+				}
+				if c, ok := ins.(ssa.CallInstruction); ok {
+					if sc := c.Common().StaticCallee(); sc != nil && !seenF[sc] && sc.Blocks != nil && sc.Pkg != nil && root.Pkg != nil && sc.Pkg == root.Pkg {
+						seenF[sc] = true
+						fq = append(fq, sc)
+					}
+				}
+				if mc, ok := ins.(*ssa.MakeClosure); ok {
+					if cf, isF := mc.Fn.(*ssa.Function); isF && !seenF[cf] && cf.Blocks != nil {
+						seenF[cf] = true
+						fq = append(fq, cf)
+					}
+				}
+			}
+		}
+	}
+	checkRegion := func(f *ssa.Function, ifb *ssa.BasicBlock, succ *ssa.BasicBlock) string {
+		if len(succ.Preds) != 1 {
+			return "" // a join: runs on both outcomes
+		}
+		inRegion := func(b *ssa.BasicBlock) bool { return succ == b || succ.Dominates(b) }
+		for _, b := range f.Blocks {
+			if !inRegion(b) {
+				// phis merging values that come out of the region
+				for _, ins := range b.Instrs {
+					phi, ok := ins.(*ssa.Phi)
+					if !ok {
+						break
+					}
+					for k, p := range b.Preds {
+						if inRegion(p) || p == ifb {
+							_ = k
+						}
+					}
+					fromRegion := false
+					for _, p := range b.Preds {
+						if inRegion(p) {
+							fromRegion = true
+						}
+					}
+					if fromRegion && !allowed[phi.Comment] {
+						distinct := map[ssa.Value]bool{}
+						for _, e := range phi.Edges {
+							distinct[e] = true
+						}
+						if len(distinct) > 1 {
+							return fmt.Sprintf("the value of %q after the branch at %s depends on whether the flag-only code ran", phi.Comment, pos(f, ifb.Instrs[len(ifb.Instrs)-1].Pos()))
+						}
+					}
+				}
+				continue
+			}
+			for _, ins := range b.Instrs {
+				switch x := ins.(type) {
+				case *ssa.Store:
+					if n := nameOfAddr(x.Addr); !allowed[n] && n != "varargs" {
+						return fmt.Sprintf("flag-only code stores to %q (%s)", n, pos(f, x.Pos()))
+					}
+				case *ssa.MapUpdate:
+					return "flag-only code updates a map (" + pos(f, x.Pos()) + ")"
+				case *ssa.Send, *ssa.Go, *ssa.Defer, *ssa.Panic:
+					return fmt.Sprintf("flag-only code contains a %T (%s)", ins, pos(f, ins.Pos()))
+				case *ssa.Return:
+					return "flag-only code returns (" + pos(f, x.Pos()) + ")"
+				case *ssa.Call:
+					if formatting(x.Common()) {
+						continue
+					}
+					// a callee that receives the flag (or a constant true in its place) is analysed through its parameter
+					ok := false
+					for _, a := range x.Common().Args {
+						if seenV[a] {
+							ok = true
+						}
+					}
+					if !ok {
+						name := "a dynamic callee"
+						if sc := x.Common().StaticCallee(); sc != nil {
+							name = vc.FuncName(sc)
+						}
+						return fmt.Sprintf("flag-only code calls %s (%s)", name, pos(f, x.Pos()))
+					}
+				}
+			}
+		}
+		return ""
+	}
+	for len(work) > 0 {
+		t := work[len(work)-1]
+		work = work[:len(work)-1]
+		refs := t.v.Referrers()
+		if refs == nil {
+			continue
+		}
+		for _, r := range *refs {
+			switch u := r.(type) {
+			case *ssa.DebugRef:
+			case *ssa.If:
+				b := u.Block()
+				for _, succ := range b.Succs {
+					if why := checkRegion(t.fn, b, succ); why != "" {
+						return why, nLoads, len(funcsWith)
+					}
+				}
+			case *ssa.UnOp:
+				if u.Op != token.NOT {
+					return "the flag is used by a unary operation (" + pos(t.fn, u.Pos()) + ")", nLoads, len(funcsWith)
+				}
+				pushV(t.fn, u)
+			case *ssa.Phi:
+				if bt, isB := u.Type().Underlying().(*types.Basic); isB && bt.Kind() == types.Bool {
+					pushV(t.fn, u)
+				} else {
+					return "the flag flows into a non-boolean value (" + pos(t.fn, u.Pos()) + ")", nLoads, len(funcsWith)
+				}
+			case ssa.CallInstruction:
+				sc := u.Common().StaticCallee()
+				if sc == nil || sc.Blocks == nil {
+					return "the flag is passed to a function that cannot be followed (" + pos(t.fn, u.Pos()) + ")", nLoads, len(funcsWith)
+				}
+				args := u.Common().Args
+				off := 0
+				if sc.Signature.Recv() != nil && len(sc.Params) == len(args) {
+					off = 0
+				}
+				for i, a := range args {
+					if a == t.v && i-off < len(sc.Params) {
+						funcsWith[sc] = true
+						pushV(sc, sc.Params[i])
+					}
+				}
+			default:
+				return fmt.Sprintf("the flag flows into a %T (%s)", r, pos(t.fn, r.Pos())), nLoads, len(funcsWith)
+			}
+		}
+	}
+	return "", nLoads, len(funcsWith)
 }
